@@ -435,6 +435,9 @@ func runC10(r *engine.Run) {
 		r.Explore(x)
 	}
 
+	// ---- (e) schedules: merged from the schedule explorer's summary
+	mergeSchedSummary(r, "C10")
+
 	if !r.Replay {
 		r.Guard(r.OutcomeCount("reuse/compared") > 1000 && r.OutcomeCount("band-instances/compared") > 1000, "reuse histories and band-instance transitions compared")
 		r.Guard(len(types) >= 80, "at least 80 decodable types in the reuse histories (%d)", len(types))
